@@ -3,7 +3,8 @@
 # Confirms in a scratch worktree: suite passes with the patch; demo passes without and fails with it.
 set -u
 S=$1
-WT=/tmp/wt/verify-$$
+[ -f $S/demo_test.go ] || { f=$(ls $S/*_test.go 2>/dev/null | head -1); [ -n "$f" ] && cp $f $S/demo_test.go; }
+WT=/tmp/wt/verify-$$-$RANDOM
 export GOFLAGS=-mod=mod GOPROXY=off
 git -C /repo worktree add -q --detach $WT HEAD || exit 2
 trap 'git -C /repo worktree remove --force $WT >/dev/null 2>&1' EXIT
